@@ -254,6 +254,16 @@ def installed(evaluator: Evaluator, rec: Recorder, rowwise_stub: bool):
             stub_field(s, pb), f"stub_S{s:0.4f}")
         sr.field_optimization_wp_space_fr = lambda p, s, rs, pb, ng_zones=None, rotate_start=None, rotate_stop=None: (
             stub_field(s, pb), f"stub_P{p}_S{s:0.4f}")
+    orig_search = sr.Bisection1D.search
+
+    def search(self, _o=orig_search):
+        try:
+            return _o(self)
+        except ValueError as e:
+            rec.add(kind="search_raised", cls=type(self).__name__, msg=str(e)[:80])
+            raise
+
+    sr.Bisection1D.search = search
     for cls in (sr.Bisection1D, sr.RowWiseModifiedBisectionSearch):
         orig_ce = cls.calculate_excess
         orig_ig = cls.initialize_ghe
@@ -277,6 +287,7 @@ def installed(evaluator: Evaluator, rec: Recorder, rowwise_stub: bool):
     try:
         yield
     finally:
+        sr.Bisection1D.search = orig_search
         for k, v in saved.items():
             setattr(sr, k, v)
         for cls, (a, b) in saved_methods.items():
@@ -441,13 +452,20 @@ def oracle_c05(plan, obs):
             raise Violation("C05", "height_oversized", f"excess({n}@{h})={e_h:.4g} < -1e-3 with H>min ({method},{mode})",
                             site=method)
         tag = "clamped_min" if h == hmin else "clamped_max" if h == hmax else "root"
+    fault_fired = any(e["kind"] == "fault" for e in obs["rec"].events)
+    if fault_fired:
+        # relaxation under faults, deliberately narrow: a swallowed evaluator fault (BisectionZD) may cost optimality;
+        # the root clause above still applies, the comparison clauses below do not
+        return tag + "_after_fault"
     if method in BISECTION_BASED:
         total = n * h
+        swallowed = any(e["kind"] == "search_raised" for e in obs["rec"].events)
         for e in _evals(obs, hmax):
             if e["e"] < 0 and total > e["n"] * hmax * (1 + 1e-12):
                 raise Violation("C05", "more_drilling_than_evaluated_feasible",
                                 f"returned {n}x{h:.3f}={total:.1f} m > {e['n']}x{hmax} of evaluated feasible {e['spec']} "
-                                f"({method},{mode})", site=f"{method}:{mode}")
+                                f"({method},{mode}{', a list search raised and was swallowed' if swallowed else ''})",
+                                site=f"{method}:{mode}" + (":swallowed_search_error" if swallowed else ""))
     if method in ("NEARSQUARE", "RECTANGLE", "BIRECTANGLE") and mode == "monotone":
         s = obs["search"]
         dom = s.coordinates_domain
